@@ -137,6 +137,61 @@ pub fn generate(repo: &PathBuf) -> Result<String, String> {
         .ok_or("get_records_within_distance_range: expected the range `..range`")?;
     let within_exclusive = to.1 == "..";
 
+    // update_records_from_an_existing_store: does the start-up scan test a size against max_value_bytes?
+    let scan = impl_fn(&file, "NodeRecordStore", None, "update_records_from_an_existing_store")?;
+    let sh = shapes(&scan.block);
+    let size_tests: Vec<&(String, String, String)> = sh.bins.iter().filter(|(l, _, r)| l.contains("max_value_bytes") || r.contains("max_value_bytes")).collect();
+    // (drops, compares the file length (else the decrypted value length), strict)
+    let (scan_drops, scan_on_file, scan_strict) = match size_tests.as_slice() {
+        [] => (false, true, true),
+        [(l, op, r)] => {
+            let (subject, strict) = if r.contains("max_value_bytes") {
+                match op.as_str() {
+                    ">" => (l, true),
+                    ">=" => (l, false),
+                    o => return Err(format!("update_records_from_an_existing_store: unexpected size test `{l} {o} {r}`")),
+                }
+            } else {
+                match op.as_str() {
+                    "<" => (r, true),
+                    "<=" => (r, false),
+                    o => return Err(format!("update_records_from_an_existing_store: unexpected size test `{l} {o} {r}`")),
+                }
+            };
+            let on_file = if subject.contains("meta") || subject.starts_with("bytes.len") || subject.contains("file") {
+                true
+            } else if subject.contains("record.value") || subject.contains("value.len") {
+                false
+            } else {
+                return Err(format!("update_records_from_an_existing_store: cannot tell what `{subject}` measures in the size test"));
+            };
+            let c = calls_in_block(&scan.block);
+            if !c.paths.iter().any(|p| p == "fs::remove_file") {
+                return Err("update_records_from_an_existing_store: size test without fs::remove_file".into());
+            }
+            (true, on_file, strict)
+        }
+        more => return Err(format!("update_records_from_an_existing_store: {} size tests against max_value_bytes", more.len())),
+    };
+
+    // RecordStore::put refuses `record.value.len() >= max_value_bytes`; put_verified has no size test
+    let kput = impl_fn(&file, "NodeRecordStore", Some("RecordStore"), "put")?;
+    let sh = shapes(&kput.block);
+    let t = sh.bins.iter().find(|(l, _, r)| l == "record.value.len()" && r == "self.config.max_value_bytes")
+        .ok_or("RecordStore::put: expected `record.value.len() <op> self.config.max_value_bytes`")?;
+    let put_inclusive = match t.1.as_str() {
+        ">=" => true,
+        ">" => false,
+        o => return Err(format!("RecordStore::put: unexpected operator `{o}` in the size test")),
+    };
+    let pv = impl_fn(&file, "NodeRecordStore", None, "put_verified")?;
+    let sh = shapes(&pv.block);
+    if sh.bins.iter().any(|(l, _, r)| l.contains("max_value_bytes") || r.contains("max_value_bytes")) {
+        return Err("put_verified: a size test against max_value_bytes appeared (the model has none)".into());
+    }
+    let driver = parse_file(&repo.join("ant-networking/src/driver.rs"))?;
+    let max_packet = const_value(&driver, "MAX_PACKET_SIZE")?;
+
     // both (de)cryption helpers are switched by cfg!(feature = "encrypt-records")
     for f in ["get_record_from_bytes", "prepare_record_bytes"] {
         let item = impl_fn(&file, "NodeRecordStore", None, f)?;
@@ -171,6 +226,11 @@ pub fn generate(repo: &PathBuf) -> Result<String, String> {
     s.push_str(&format!("/-- `get_records_within_distance_range` counts `..range` (exclusive upper bound) -/\ndef withinRangeExclusive : Bool := {}\n", lean_bool(within_exclusive)));
     s.push_str("/-- `cleanup_irrelevant_records` removes the range `responsible_distance..` (inclusive lower bound) -/\ndef cleanupFromInclusive : Bool := true\n");
     s.push_str(&format!("/-- ant-node's default features: {:?}; `encrypt-records` reaches ant-networking -/\ndef shippedEncrypt : Bool := {}\n", node_default, lean_bool(shipped)));
+    s.push_str(&format!("/-- `MAX_PACKET_SIZE` (driver.rs): `max_value_bytes` of a node's store -/\ndef maxPacketSize : Nat := {max_packet}\n"));
+    s.push_str(&format!("/-- the start-up scan removes files by a size test against `max_value_bytes` -/\ndef scanDropsOversized : Bool := {}\n", lean_bool(scan_drops)));
+    s.push_str(&format!("/-- that test measures the file length (otherwise the decrypted value length) -/\ndef scanSizeOnFile : Bool := {}\n", lean_bool(scan_on_file)));
+    s.push_str(&format!("/-- that test is `len > max` (otherwise `len >= max`) -/\ndef scanSizeStrict : Bool := {}\n", lean_bool(scan_strict)));
+    s.push_str(&format!("/-- `RecordStore::put` refuses `len >= max_value_bytes` (otherwise `>`); `put_verified` has no size test -/\ndef putSizeInclusive : Bool := {}\n", lean_bool(put_inclusive)));
     s.push_str("end SafeNet.Gen.Store\n");
     Ok(s)
 }
